@@ -194,9 +194,29 @@ def h_event_rule_wide(reply: str, direction: str, fdir: str) -> bool:
     except (DznJsonError, NamespaceIdsTypeError):
         # legitimate refusals: bad identifier, unknown direction words, or the out-event rule
         return True
-    if direction == 'out' and (reply != 'void' or fdir == 'out'):
+    # judged on the RESULT: whatever spelling was accepted, an out event never has a valued reply or
+    # an out parameter, and only the exact words 'in' / 'out' / 'inout' are directions
+    if evt.direction == ast.EventDirection.OUT:
+        if evt.signature.type_name.value.items != ['void']:
+            return False
+        if any(f.direction == ast.FormalDirection.OUT for f in evt.signature.formals.elements):
+            return False
+    if direction not in ('in', 'out') or fdir not in ('in', 'out', 'inout'):
         return False
     return evt.direction == (ast.EventDirection.OUT if direction == 'out' else ast.EventDirection.IN)
+
+
+DIR_WORDS = ['in', 'out', 'IN', 'OUT', 'Out', 'In', 'oUt', 'inout', 'InOut', '', ' out', 'out ', 'Out\n', 'provides']
+
+
+def _event_words_case(di: int, fi: int, ri: int) -> bool:
+    return h_event_rule_wide(['void', 'Res', 'Void', 'VOID'][ri], DIR_WORDS[di], DIR_WORDS[fi])
+
+
+def h_event_words(di: int, fi: int, ri: int) -> bool:
+    """Direction words in every letter case / with stray blanks, for the event and for its formal."""
+    return run_native(_event_words_case, pick(range(len(DIR_WORDS)), di), pick(range(len(DIR_WORDS)), fi),
+                      pick(range(4), ri))
 
 
 SPECS = [
@@ -219,6 +239,10 @@ SPECS = [
     H('h_event_rule', 'deep', pre=['0 <= di < 2', '0 <= ri < 4', '0 <= nf <= 2', '0 <= f0 < 3', '0 <= f1 < 3'],
       quick=dict(ct=200, pt=30), thorough=dict(ct=300, pt=30),
       bounds='event direction x 4 reply types x <= 2 formals of every direction'),
+    H('h_event_words', 'deep', pre=['0 <= di < %d' % len(DIR_WORDS), '0 <= fi < %d' % len(DIR_WORDS), '0 <= ri < 4'],
+      quick=dict(ct=200, pt=30), thorough=dict(ct=300, pt=30),
+      bounds='%d direction spellings (letter case, blanks, trailing newline, foreign words) for event and '
+             'formal x 4 reply spellings' % len(DIR_WORDS)),
     H('h_event_rule_wide', 'wide', pre=['len(reply) <= {N}', 'len(direction) <= 3', 'len(fdir) <= 3'],
       quick=dict(N=4, ct=250, pt=30), thorough=dict(N=5, ct=1500, pt=60),
       bounds='symbolic reply identifier (len <= {N}), event direction and formal direction strings '
